@@ -49,7 +49,7 @@ class ScaleBias(Contract):
                 for b in BIASES:
                     if s == 1 and b == 0:
                         continue
-                    for route in ('ctor', 'call', 'setitem'):
+                    for route in ('ctor', 'call', 'setitem') + (('ctor_int',) if s in (Fraction(1), Fraction(2), Fraction(1, 2)) else ()):
                         k += 1
                         modes = [MODES[k % len(MODES)]] if tier == 'quick' else MODES[::3]
                         for rule, mode in modes:
@@ -61,14 +61,22 @@ class ScaleBias(Contract):
     def inputs(self, cfg, D):
         lim = 2**14 if cfg['fmt'] is not None else 2**9
         lo = -lim if (cfg['fmt'] is not None or cfg.get('signed')) else 0
+        if cfg['route'] == 'ctor_int':
+            return {'vi': D.int('vi', -2**12, 2**12)}       # an integer-typed input value
         return {'m': D.int('m', lo, lim), 'm2': D.int('m2', -lim, lim)}
 
     def run(self, cfg, P, inp):
         s = Fraction(*cfg['scale']); b = Fraction(*cfg['bias'])
         sf, bf = float(s), (float(b) if b.denominator != 1 else int(b))
         if s.denominator == 1: sf = int(s)
-        v = affine_input(P, inp['m'], s, b)
         route = cfg['route']
+        if route == 'ctor_int':
+            sg, n, f = cfg['fmt']
+            x = P.Fxp(inp['vi'], sg, n, f, rounding=cfg['rule'], overflow=cfg['mode'], scale=sf, bias=bf)
+            o = obs_fxp(x)
+            o['getval'] = x.get_val()
+            return o
+        v = affine_input(P, inp['m'], s, b)
         if route == 'infer':
             x = P.Fxp(v, cfg['signed'], scale=sf, bias=bf)
         else:
@@ -92,7 +100,10 @@ class ScaleBias(Contract):
         if obs['exc']:
             return {}
         s = Fraction(*cfg['scale']); b = Fraction(*cfg['bias'])
-        w = scale2(M(inp['m']), -G)
+        if cfg['route'] == 'ctor_int':
+            w = (M(inp['vi']) - b) * (1 / s)             # exact: s is a power of two here
+        else:
+            w = scale2(M(inp['m']), -G)
         S, W, F = obs['signed'], obs['n_word'], obs['n_frac']
         lo, hi = range_of(S, W)
         codes = [M(c) for c in elems(obs['val'])]
